@@ -30,7 +30,8 @@ for p in props:
             "engine": "nxfacts+nxrules",
             "level_claimed": {
                 "category": "other",
-                "text": getattr(mod, "LEVEL_TEXT", mod.EXPLANATION),
+                "text": getattr(mod, "LEVEL_TEXT", mod.EXPLANATION) + " Clauses evaluated (rule id: what it decides): " + "; ".join(
+                    "%s: %s" % (r[0], r[1]) for r in sorted(mod.RULES, key=lambda r: r[0])) + ".",
                 "design_ref": "DESIGN.md section 5 (%s), sections 6-7" % pid,
             },
             "level_note": getattr(
